@@ -1347,15 +1347,23 @@ func (t *objectType) resolvedParent() *objectType {
 			// aliases may refer to each other in a circle (A = B, B = A): such a parent is no Object
 			for _, s := range seen {
 				if s == at {
-					panic(px.Error(px.IllegalObjectInheritance, issue.H{`label`: t.Label(), `type`: tp.PType().String()}))
+					panic(t.illegalParent(tp))
 				}
 			}
 			seen = append(seen, at)
 			tp = at.ResolvedType()
 		default:
-			panic(px.Error(px.IllegalObjectInheritance, issue.H{`label`: t.Label(), `type`: tp.PType().String()}))
+			panic(t.illegalParent(tp))
 		}
 	}
+}
+
+// illegalParent takes the parent that is no Object away from the type and returns the error that names it: wording
+// the parent compares the types it consists of, and a comparison with this type asks for its members, the inherited
+// ones included, so a type that kept the parent would raise, and word, the same error again without end
+func (t *objectType) illegalParent(tp px.Type) issue.Reported {
+	t.parent = nil
+	return px.Error(px.IllegalObjectInheritance, issue.H{`label`: t.Label(), `type`: tp.PType().String()})
 }
 
 // setCreators takes one or two arguments. The first function is for positional arguments, the second
